@@ -178,6 +178,17 @@ func (w *World) opCreateApp() {
 	if w.prof.Ranges && (c.Prob(1, 3) || w.prop == "C08" && c.Prob(3, 4)) && !(a.Kind == "dp" && a.effPolicy() != "") {
 		a.Ranges = w.genRanges()
 	}
+	if w.prop == "C07" && a.Kind == "dp" && a.Pool != "" && c.Prob(1, 4) {
+		// two features that are each fine alone: a pool annotation and requested ranges on one deployment pod (galaxy
+		// refuses such pods; if it ever stopped refusing them, bind would allocate one uncapped IP per range)
+		a.Ranges = w.genRanges()
+		w.S.Stat("c07.pooled-dp-with-ranges")
+		if w.K.Get("pools", "kube-system", a.Pool) == nil {
+			// ... in a pool that has a (small) size and nothing pre-allocated
+			w.mustCreate("pools", map[string]interface{}{"apiVersion": "galaxy.k8s.io/v1alpha1", "kind": "Pool",
+				"metadata": map[string]interface{}{"name": a.Pool, "namespace": "kube-system"}, "size": c.Range(1, 2), "preAllocateIP": false})
+		}
+	}
 	w.apps = append(w.apps, a)
 	w.createAppObject(a)
 }
